@@ -3,6 +3,8 @@
    simulated device, configuration in `const` (must be a canonical configuration of the spec), events:
      Begin | Startup(o, r) | Term(v) | Sense(res) | Discover(o, v) | Connect(o, v) | Led(v) | Presence(v)
      | Release(o, v) | LlcAct(role, res) | Xchg(v) | RunEnd(res) | Listen(res) | Serve(v) | Return(res)
+     | Cut (a call without terminate argument abandoned by the harness)
+   Sense carries the driver's discovery attempts and the pauses between rounds, LlcAct what the peer was told.
    Every event carries the projected post-state (number of terminate() polls, number of callbacks, LED, the
    kind of clf.target, the device field),
    which must equal the spec's; the contract invariants are step post-conditions. *)
@@ -15,10 +17,11 @@ Traces == ndJsonDeserialize(IOEnv.TRACE_FILE)
 T == Traces[tid].ev
 C == Traces[tid].const
 
-CfgOf(c) == [has |-> [o \in Opt |-> c.has[o]], su |-> [o \in Opt |-> c.su[o]], disc |-> [o \in Opt |-> c.disc[o]],
+CfgOf(c) == [top |-> [o \in Opt |-> c.top[o]], giv |-> [o \in Opt |-> [n \in CbN |-> c.giv[o][n]]],
+             su |-> [o \in Opt |-> c.su[o]], disc |-> [o \in Opt |-> c.disc[o]],
              conn |-> [o \in Opt |-> c.conn[o]], rel |-> [o \in Opt |-> c.rel[o]],
-             empty |-> [o \in Opt |-> c.empty[o]], beep |-> c.beep,
-             role |-> c.role, env |-> c.env, k |-> c.k, termAt |-> c.termAt]
+             beep |-> c.beep, role |-> c.role, sf |-> [tgt |-> c.sf.tgt, iter |-> c.sf.iter, ival |-> c.sf.ival],
+             dep |-> [k \in DepKeys |-> c.dep[k]], env |-> c.env, k |-> c.k, termAt |-> c.termAt, noterm |-> c.noterm]
 
 TInit ==
     /\ tid \in 1..Len(Traces)
@@ -31,7 +34,9 @@ Ev == T[l]
 IsEv == l <= Len(T) /\ l' = l + 1 /\ UNCHANGED tid
 
 \* the configuration that was executed is one the specification quantifies over
-CfgOk == Canon(cfg) /\ cfg.env \in Envs /\ cfg.role \in Roles /\ \A o \in Opt : cfg.su[o] \in StartupRes
+CfgOk == /\ Canon(cfg) /\ cfg.env \in Envs /\ cfg.role \in RoleForms /\ cfg.beep \in BeepForms
+         /\ \A o \in Opt : cfg.su[o] \in StartupRes /\ cfg.top[o] \in TopForms
+         /\ cfg.sf.tgt \in TgtForms /\ cfg.sf.iter \in 0..9 /\ cfg.sf.ival \in -1..1000
 
 B(v) == IF v THEN "T" ELSE "F"
 NextIsRdwrConnect == l < Len(T) /\ T[l + 1].a = "Connect" /\ T[l + 1].o = "rdwr"
@@ -67,15 +72,19 @@ Match ==
       [] Ev.a = "Return"   -> Return /\ Ev.r = RetVal
       [] OTHER -> FALSE
 
-Guarded == IsEv /\ CfgOk /\ Match
-\* callbacks of an option given as {} are the built-in defaults: they happen, but no user code sees them
-VisLen(s) == Cardinality({i \in DOMAIN s : ~cfg.empty[s[i].o]})
+\* (the configuration does not change: looked at with the first event, which is always Begin)
+CfgOk1 == l > 1 \/ CfgOk
+Guarded == IsEv /\ CfgOk1 /\ Match
+\* callbacks whose key is not given are the built-in defaults: they happen, but no user code sees them
+Vis(o, n) == cfg.giv[o][n]
+VisLen(s) == Cardinality({i \in DOMAIN s : Vis(s[i].o, s[i].n)})
 IsCbEv == Ev.a \in {"Startup", "Discover", "Connect", "Release"}
 PostOk == /\ polls' = Ev.polls
           /\ VisLen(cb') = Ev.ncb
           /\ led' = Ev.led
 
-InvNames == <<"Order", "ReleaseIff", "ReturnValue", "Prompt", "Led", "MuteWhenNone", "TargetFresh", "Pauses">>
+InvNames == <<"Order", "ReleaseIff", "ReturnValue", "Prompt", "Led", "MuteWhenNone", "TargetFresh", "Pauses",
+              "SenseLoop", "Announce">>
 InvP(n) == CASE n = "Order" -> OrderP(cb')
              [] n = "ReleaseIff" -> ReleaseIffP(cb', pc' = "done")
              [] n = "ReturnValue" -> ReturnValueP(pc', ret', cb', left', err', termSeen')
@@ -88,18 +97,29 @@ InvP(n) == CASE n = "Order" -> OrderP(cb')
                    /\ (Ev.a = "Sense" => Ev.target = (IF Ev.r \in {"tag", "dep"} THEN "remote" ELSE "none"))
                    /\ (Ev.a = "Listen" => Ev.target = (IF Ev.r = "reader" THEN "local" ELSE "none"))
              [] n = "Pauses" -> Ev.minpause >= 0       \* no negative pause between sense rounds (time.sleep argument)
+             \* 'targets' x 'iterations' x 'interval' (written or defaulted) as seen in the driver log of this attempt
+             [] n = "SenseLoop" -> (Ev.a = "Sense" => SenseLoopP(Ev.att, Ev.pauses, Ev.cost))
+             \* the link parameters (written or defaulted) as the simulated peer received them
+             [] n = "Announce" -> (Ev.a = "LlcAct" => WireOkP(Ev.o, Ev.r, Ev.w))
 AllInv == \A i \in DOMAIN InvNames : InvP(InvNames[i])
 
 Real == Guarded /\ PostOk /\ AllInv
 
-\* A default callback of an option given as {}: a step of the model without an event of its own.  (A disturbed
-\* activation - env tagX - is not combined with rdwr = {}: its outcome could not be told from the next event.)
+\* A default callback (its key is not given): a step of the model without an event of its own.  (A disturbed
+\* activation - env tagX - is only run with on-discover and on-connect given: its outcome is told by the next event.)
+\* Without a terminate argument the polls are steps without an event, too.
 Silent ==
-    /\ l <= Len(T) /\ UNCHANGED <<tid, l>> /\ CfgOk
-    /\ \/ pc = "startup" /\ cfg.empty[role] /\ Startup
-       \/ cfg.empty["rdwr"] /\ (RdwrDiscoverP(TRUE) \/ RdwrConnect \/ Release("rdwr", "rdwr_rel"))
-       \/ cfg.empty["llcp"] /\ (LlcConnect \/ Release("llcp", "llcp_rel"))
-       \/ cfg.empty["card"] /\ (CardDiscover \/ CardConnect \/ Release("card", "card_rel"))
+    /\ l <= Len(T) /\ UNCHANGED <<tid, l>> /\ CfgOk1
+    /\ \/ pc = "startup" /\ ~Vis(role, "startup") /\ Startup
+       \/ ~Vis("rdwr", "discover") /\ RdwrDiscoverP(TRUE)
+       \/ ~Vis("rdwr", "connect") /\ RdwrConnect
+       \/ ~Vis("rdwr", "release") /\ Release("rdwr", "rdwr_rel")
+       \/ ~Vis("llcp", "connect") /\ LlcConnect
+       \/ ~Vis("llcp", "release") /\ Release("llcp", "llcp_rel")
+       \/ ~Vis("card", "discover") /\ CardDiscover
+       \/ ~Vis("card", "connect") /\ CardConnect
+       \/ ~Vis("card", "release") /\ Release("card", "card_rel")
+       \/ cfg.noterm /\ (Poll \/ PresPoll \/ RunPoll \/ ServePoll)
     /\ OrderP(cb') /\ ReleaseIffP(cb', pc' = "done") /\ PromptP(after', lateWork') /\ LedP(pc', led')
 
 FailedInv == SelectSeq(InvNames, LAMBDA n : ~ENABLED (Guarded /\ PostOk /\ InvP(n)))
@@ -116,31 +136,38 @@ ObsBroken ==
           [] n = "ReturnValue" -> \/ Ev.a = "Raise"
                                   \/ Ev.a = "Return" /\ ~ReturnValueP("done", Ev.r, cb, left, err \/ DeviceFails, termSeen)
           [] n = "Prompt" -> termSeen /\ Ev.a \in {"Discover", "Connect", "Presence", "Xchg", "Serve", "Startup"})
-Why == IF ~CfgOk THEN <<"config", "not a canonical configuration">>
+Why == IF ~CfgOk1 THEN <<"config", "not a canonical configuration">>
        ELSE IF ~ENABLED Guarded THEN
-            IF ObsBroken # <<>> THEN <<"inv", ObsBroken>>
+            IF ObsBroken # <<>> THEN <<"inv", ObsBroken, pc>>
             ELSE <<"guard", [pc |-> pc, role |-> role, polls |-> polls, envk |-> envk,
                              gone |-> gone, ncb |-> Len(cb), expectedRet |-> RetVal]>>
        ELSE IF ~ENABLED (Guarded /\ PostOk) THEN <<"post", [pc |-> pc, polls |-> polls, ncb |-> Len(cb), led |-> led]>>
        ELSE <<"inv", FailedInv>>
 
+\* a call without terminate argument that would go on for ever was abandoned by the harness at a discovery attempt
+CutStep ==
+    /\ IsEv /\ CfgOk1 /\ Ev.a = "Cut" /\ cfg.noterm
+    /\ pc \in {"rdwr_sense", "llcp_act", "card_listen"}
+    /\ pc' = "cut"
+    /\ UNCHANGED <<cfg, role, left, polls, envk, gone, found, cb, ret, led, err, termSeen, after, lateWork>>
+
 Stuck ==
     /\ l <= Len(T)
-    /\ ~ENABLED Real /\ ~ENABLED Silent
+    /\ ~ENABLED Real /\ ~ENABLED Silent /\ ~ENABLED CutStep
     /\ PrintT(<<"STUCK", Traces[tid].id, l, Ev.a, Why>>)
     /\ l' = Len(T) + 2
     /\ UNCHANGED <<cfg, pc, role, left, polls, envk, gone, found, cb, ret, led, err, termSeen, after, lateWork, tid>>
 
 \* a real call that has returned must have reached the spec's final state
-Complete == (l = Len(T) + 1) => pc = "done"
+Complete == (l = Len(T) + 1) => pc \in {"done", "cut"}
 Incomplete ==
-    /\ l = Len(T) + 1 /\ pc # "done"
+    /\ l = Len(T) + 1 /\ pc \notin {"done", "cut"}
     /\ PrintT(<<"STUCK", Traces[tid].id, l, "end", <<"guard", [pc |-> pc, expected |-> "more events"]>>>>)
     /\ l' = Len(T) + 2
     /\ UNCHANGED <<cfg, pc, role, left, polls, envk, gone, found, cb, ret, led, err, termSeen, after, lateWork, tid>>
 
-TNext == Real \/ Silent \/ Stuck \/ Incomplete
+TNext == Real \/ Silent \/ CutStep \/ Stuck \/ Incomplete
 TSpec == TInit /\ [][TNext]_tvars
 
-Done == (l = Len(T) + 1 /\ pc = "done") => PrintT(<<"ACCEPT", Traces[tid].id>>)
+Done == (l = Len(T) + 1 /\ pc \in {"done", "cut"}) => PrintT(<<"ACCEPT", Traces[tid].id>>)
 =============================================================================
